@@ -13,7 +13,7 @@ CONFIG = {
                   "data/transactions/logic/zz_verif_avmtables_test.go"],
         "util": [("data/transactions/logic", "logic")],
         "env": {"quick": {"VERIF_C31_N": 12000, "VERIF_C31_REC": 100},
-                "thorough": {"VERIF_C31_N": 400000, "VERIF_C31_REC": 60}},
+                "thorough": {"VERIF_C31_N": 300000, "VERIF_C31_REC": 60}},
         "timeout": {"quick": 900, "thorough": 3000},
     }],
     "level_note": "PARTIAL for 'without an internal crash': Go-level panics inside op functions are outside the model; that half "
